@@ -131,7 +131,7 @@ def build(tier, seed):
                        "that the colour context is the only shared state in play.",
         "outside": ["preemptions at call boundaries other than the modelled ones are covered by concrete witnesses only (real documents, "
                     "thread A stopped before its k-th call of ANY function of the package while thread B encodes completely: every "
-                    "k in the thorough tier, a seeded stride of about 160 boundaries per document pair in the quick tier)",
+                    "k in the thorough tier; in the quick tier the first and the last instance of every distinct callee plus a seeded stride)",
                     "data races inside polars / pydantic-core", "more than two preemptions", "preemptions inside a single call of "
                     "the colour API (the GIL makes each such call's bytecode interleavable in principle; modelled at call "
                     "granularity)", "free-threaded builds"],
